@@ -34,7 +34,10 @@
 #include <QFile>
 #include <chrono>
 #include <cstdio>
+#include <cstring>
+#include <cstdlib>
 #include <unistd.h>
+#include <sys/mman.h>
 #include <iostream>
 #include <atomic>
 #include <sstream>
@@ -79,7 +82,9 @@ static std::string hex16(const QString &s)
 
 static const char *const kRegexMenu[] = {
     "error|fail(ed|ure)?", "^\\s*$", "^\\[[^\\]]*\\]", "\\d{3,}", "(\\w+)\\s+\\1", "\\p{Lu}\\p{Ll}+",
-    "^(?:[a-z0-9_]+\\.)*[a-z]+$", "(?i)warn.*deprecated", "[\\x{80}-\\x{ffff}]{2}", ".*", "(", "\\bname=(?<v>[^;]*);"
+    "^(?:[a-z0-9_]+\\.)*[a-z]+$", "(?i)warn.*deprecated", "[\\x{80}-\\x{ffff}]{2}", ".*", "(", "\\bname=(?<v>[^;]*);",
+    // round 8: expressions that scan to the very end of the subject (a text cut in the middle of a surrogate pair)
+    "\\p{L}+", "[^x]+$"
 };
 static const int kRegexMenuSize = int(sizeof(kRegexMenu) / sizeof(kRegexMenu[0]));
 
@@ -220,8 +225,26 @@ int main()
             is >> idx >> msg;
             RegExpFilter f(QString::fromLatin1(kRegexMenu[((idx % kRegexMenuSize) + kRegexMenuSize) % kRegexMenuSize]));
             QMessageLogContext ctx("f", 1, "fn", "c");
-            LogMessage lm(QtDebugMsg, ctx, un16(msg));
-            out = f.filter(lm) ? "1" : "0";
+            // round 8: the text ends flush against an inaccessible page (QString::fromRawData on a mapped buffer, as texts taken
+            // from a memory-mapped file or a network buffer do): a read even one code unit past the end is a SIGSEGV on every
+            // build (PCRE's JIT-compiled matcher is not instrumented by the sanitizers, a guard page catches it all the same)
+            const QString text = un16(msg);
+            const int n = text.size();
+            const size_t page = size_t(sysconf(_SC_PAGESIZE));
+            const size_t bytes = size_t(n) * 2, span = ((bytes + page - 1) / page) * page;
+            char *base = n > 0 ? static_cast<char *>(mmap(nullptr, span + page, PROT_READ | PROT_WRITE, MAP_PRIVATE | MAP_ANONYMOUS, -1, 0)) : nullptr;
+            if (base && base != MAP_FAILED && mprotect(base + span, page, PROT_NONE) == 0) {
+                char *raw = base + span - bytes;
+                memcpy(raw, text.utf16(), bytes);
+                {
+                    LogMessage lm(QtDebugMsg, ctx, QString::fromRawData(reinterpret_cast<const QChar *>(raw), n));
+                    out = f.filter(lm) ? "1" : "0";
+                }
+                munmap(base, span + page);
+            } else {
+                LogMessage lm(QtDebugMsg, ctx, text);
+                out = f.filter(lm) ? "1" : "0";
+            }
         } else if (kind == "M") {
             out = std::to_string(kRegexMenuSize);
         } else {
